@@ -2,6 +2,7 @@
 #include <stdio.h>
 #include <string.h>
 #include <inttypes.h>
+#include <stdbool.h>
 
 void print_op_mode(uint8_t value) {
   printf("0x01 RegOpMode: \n");
@@ -1031,37 +1032,37 @@ int dump_lora_registers(uint8_t *regs) {
 }
 
 int at_util_string2hex(const char *str, uint8_t **output, size_t *output_length) {
-  size_t len = 0;
   size_t str_len = strlen(str);
+  // every ',' ends a value and the last value may come without one
+  size_t bytes = 1;
   for (size_t i = 0; i < str_len; i++) {
-    if (str[i] == ' ' || str[i] == ':' || str[i] == ',') {
-      continue;
-    }
-    //expect 0x99 so each "x" is for separate number
-    if (str[i] == 'x') {
-      len++;
+    if (str[i] == ',') {
+      bytes++;
     }
   }
-  size_t bytes = len;
   uint8_t *result = malloc(sizeof(uint8_t) * bytes);
   if (result == NULL) {
     return -1;
   }
   uint8_t curByte = 0;
-  for (size_t i = 0, j = 0; i < strlen(str);) {
+  bool has_digits = false;
+  size_t j = 0;
+  for (size_t i = 0; i < str_len;) {
     char curChar = str[i];
-    if (curChar == ' ' || str[i] == ':') {
+    if (curChar == ' ' || curChar == ':') {
       i++;
       continue;
     }
-    if (str[i] == ',') {
+    if (curChar == ',') {
       result[j] = curByte;
       curByte = 0;
+      has_digits = false;
       i++;
       j++;
       continue;
     }
-    if (str[i] == '0' && str[i + 1] == 'x') {
+    //expect 0x99
+    if (curChar == '0' && str[i + 1] == 'x') {
       i += 2;
       continue;
     }
@@ -1073,12 +1074,19 @@ int at_util_string2hex(const char *str, uint8_t **output, size_t *output_length)
     } else if (curChar >= 'a' && curChar <= 'f') {
       curByte += (curChar - 'a') + 10;
     } else {
+      free(result);
       return -1;
     }
+    has_digits = true;
     i++;
   }
+  // the last value is not followed by a separator
+  if (has_digits) {
+    result[j] = curByte;
+    j++;
+  }
   *output = result;
-  *output_length = bytes;
+  *output_length = j;
   return 0;
 }
 
@@ -1091,6 +1099,12 @@ int main(int argc, char **argv) {
   size_t output_length = 0;
   int code = at_util_string2hex(argv[1], &output, &output_length);
   if (code != 0) {
+    return EXIT_FAILURE;
+  }
+  // the decoders below index all registers up to 0x70
+  if (output_length < 0x71) {
+    fprintf(stderr, "expected %d registers, got %zu\n", 0x71, output_length);
+    free(output);
     return EXIT_FAILURE;
   }
   if ((output[0x01] & 0b10000000) == 0b10000000) {
